@@ -16,7 +16,11 @@ ATTR_VERSION: Final = "version"
 
 VERSION_INFO_SIZE: Final = 15
 
-SOFTWARE_VERSION: Final = ".".join(str(x) for x in __version_tuple__[0:3])
+# Only numeric components can be packed into the version response,
+# development builds have a tuple like (0, 1, "dev1", "g62026f2").
+SOFTWARE_VERSION: Final = ".".join(
+    str(x) if isinstance(x, int) else "0" for x in (*__version_tuple__, 0, 0, 0)[0:3]
+)
 
 struct_program_version = struct.Struct("<2sB2s3s3HB")
 
